@@ -544,6 +544,69 @@ pub fn run(ctx: &'static Ctx) -> (&'static str, Value, Vec<&'static str>) {
         s3.count("histories_on_alternatively_constructed_statistics", 1);
     }
     CTOR.with(|c| c.set(0));
+    // key isolation: the 3 chunk types x every waveform code 0..=6 x every channel code 0..=3 give
+    // the complete set of distinct characteristics; for every ordered pair (a, b) of distinct keys,
+    // two samples recorded for a and one for b must surface as exactly those two rows, and an
+    // Intermediate key with history must leave the estimate for every other Intermediate key at
+    // its static default
+    {
+        let combos: Vec<(u8, u8)> = (0..=6u8).flat_map(|w| (0..=3u8).map(move |c| (w, c))).collect();
+        let cmsgs: Vec<vcp::Message> = combos.iter().map(|(w, c)| vcp_message(&[(false, *w, *c)])).collect();
+        let mut keys: Vec<(usize, ChunkCharacteristics)> = Vec::new();
+        for ty in [ChunkType::Start, ChunkType::Intermediate, ChunkType::End] {
+            for (ci, m) in cmsgs.iter().enumerate() {
+                let ch = characteristics(m, 0, ty);
+                if !keys.iter().any(|k| k.1 == ch) {
+                    keys.push((ci, ch));
+                }
+            }
+        }
+        let id2 = chunk("002", true);
+        for (ia, (_, a)) in keys.iter().enumerate() {
+            for (ib, (cb, b)) in keys.iter().enumerate() {
+                if ia == ib {
+                    continue;
+                }
+                let wit = || json!({"op": "key_isolation", "a": format!("{:?}", a), "b": format!("{:?}", b)});
+                s3.eval();
+                let r = guarded(|| {
+                    let mut st = ChunkTimingStats::new();
+                    st.add_timing(*a, Duration::milliseconds(7_000), 2);
+                    st.add_timing(*a, Duration::milliseconds(7_000), 2);
+                    let est = if a.chunk_type == ChunkType::Intermediate && b.chunk_type == ChunkType::Intermediate {
+                        Some(estimate_next_chunk_time(&id2, &cmsgs[*cb], Some(&st)).map(|t| (t - t0()).num_milliseconds()))
+                    } else {
+                        None
+                    };
+                    st.add_timing(*b, Duration::milliseconds(60_000), 5);
+                    let rows: Vec<(ChunkCharacteristics, Option<i64>, Option<f64>)> = st.get_statistics().into_iter().map(|e| (e.0, e.1.map(|d| d.num_milliseconds()), e.2)).collect();
+                    (est, rows)
+                });
+                match r {
+                    Caught::Panic(p) => ctx.fail("window:add_timing_panic", || p.clone(), wit),
+                    Caught::Ret((est, rows)) => {
+                        let row = |k: &ChunkCharacteristics| rows.iter().find(|e| e.0 == *k).map(|e| (e.1, e.2));
+                        let ok = rows.len() == 2 && row(a) == Some((Some(7_000), Some(2.0))) && row(b) == Some((Some(60_000), Some(5.0)));
+                        if !ok {
+                            ctx.fail("window:distinct_characteristics_share_a_window", || format!("{:?} x2 (7 s, 2) then {:?} x1 (60 s, 5): rows {:?}", a, b, rows), wit);
+                            s3.outcome("keys_aliased");
+                        } else {
+                            s3.outcome("keys_isolated");
+                        }
+                        if let Some(e) = est {
+                            let (w, c) = combos[*cb];
+                            let d = default_wait(w, c);
+                            if e != Some(d) {
+                                ctx.fail("window:history_of_other_characteristics_used", || format!("history only for {:?}; estimate for {:?} waits {:?} ms, static default {d} ms", a, b, e), wit);
+                            }
+                        }
+                    }
+                }
+                s3.count("ordered_key_pairs", 1);
+            }
+        }
+        s3.count("distinct_characteristics", keys.len() as u64);
+    }
     // history: mapping / estimate calls with different cut lists back to back on one thread
     let lists: Vec<Vec<(bool, u8, u8)>> = vec![
         vec![(true, 1, 0), (false, 4, 2), (true, 2, 1)],
@@ -573,7 +636,7 @@ pub fn run(ctx: &'static Ctx) -> (&'static str, Value, Vec<&'static str>) {
     );
     let stats = s1.merge(s2).merge(s3).merge(sh);
     let mut cov = stats.coverage(
-        "mapping: every cut list over {half-degree, other} of length 0..=10 (thorough 12) plus four 32-cut lists x sequences 0..=100 (200), each cut identified by a unique elevation angle; estimate without history: waveform 0..=6 x channel 0..=3 x resolution x previous sequence 0..=60 x {no stats, empty stats} x {with, without upload time}, unparsable sequences; rolling window: stateright BFS over histories of add_timing over {(0 s,1),(7 s,2),(60 s,5)} x 1 key to depth 11 (12), 2 keys to depth 5 (6), 3 keys (incl. the End-chunk key) to depth 4 (5): in every state the real estimate for every key must equal previous + mean(last <= 10 durations) + (mean attempts - 1) s within 1 s, get_statistics must agree. non-trivial = history of >= 2 samples / distinct cut list",
+        "mapping: every cut list over {half-degree, other} of length 0..=10 (thorough 12) plus four 32-cut lists x sequences 0..=100 (200), each cut identified by a unique elevation angle; estimate without history: waveform 0..=6 x channel 0..=3 x resolution x previous sequence 0..=60 x {no stats, empty stats} x {with, without upload time}, unparsable sequences; rolling window: stateright BFS over histories of add_timing over {(0 s,1),(7 s,2),(60 s,5)} x 1 key to depth 11 (12), 2 keys to depth 5 (6), 3 keys (incl. the End-chunk key) to depth 4 (5): in every state the real estimate for every key must equal previous + mean(last <= 10 durations) + (mean attempts - 1) s within 1 s, get_statistics must agree; key isolation: every ordered pair of the distinct characteristics (3 chunk types x waveform codes 0..=6 x channel codes 0..=3) keeps separate windows and an Intermediate key's history never feeds another key's estimate. non-trivial = history of >= 2 samples / distinct cut list",
         true,
         json!({"window_models": reports, "max_cut_list_len": maxlen, "max_sequence": max_seq}),
     );
@@ -591,6 +654,9 @@ pub fn replay(ctx: &'static Ctx, case: &Value) {
     let mut st = Stats::new();
     match case["op"].as_str() {
         Some("history") if case["what"].is_string() => {
+            let _ = run(ctx);
+        }
+        Some("key_isolation") => {
             let _ = run(ctx);
         }
         Some("history") => {
